@@ -2,7 +2,7 @@
 import re
 
 from .. import rettags as RT
-from ..analysis import Branches, Origins, edge_dominates, fmt_terms, reach_avoiding
+from ..analysis import strip_through, Branches, Origins, edge_dominates, fmt_terms, reach_avoiding
 from ..build import read_manifests
 from ..interp import DATA, Interp
 from ..serde_tables import VAR, casts_in, f64_mapping_ok, int_entry_ok, number_from_calls
@@ -75,7 +75,7 @@ def check_visitor(ctx, lib):
             ok, why = int_entry_ok(b, ty, P2)
         row(nm, ok, f"Number(Number::from::<{ty}>(value)) — exact, no cast, no detour through a double")
     b, o, okt, tails = R("visit_f64")
-    ok = bool(b) and len(okt) == 1 and not tails and not casts_in(b) and f64_mapping_ok(okt[0], P2)
+    ok = bool(b) and len(okt) >= 1 and not tails and not casts_in(b) and f64_mapping_ok(set().union(*okt), P2)
     row("visit_f64", ok, "Number(from_f64(value)), Null for a non-finite value")
     b, o, okt, tails = R("visit_string")
     row("visit_string", b and len(okt) == 1 and not tails and ms(okt[0], Agg(VAR + "::String", Each(P2))), "String(the owned string)")
@@ -216,11 +216,13 @@ def check_tryfrom(ctx, lib):
         if ve is None:
             ctx.missing(rule, fn, "dispatch on the Value's kind")
             continue
-        ret = o.of_local(0)
-        oks = [t for t in ret if t[0] == "agg" and t[1] == "std::result::Result::Ok"]
+        ret = {strip_through(t) for t in o.of_local(0)}
         inner = set()
-        for t in oks:
-            inner |= set(t[2][0])
+        for t in ret:
+            if t[0] == "agg" and t[1] == "std::result::Result::Ok":
+                inner |= {strip_through(x) for x in t[2][0]}
+            elif t[0] == "call" and t[1] == "variable::convert_map":
+                inner.add(t)        # returned as it is (its own Result)
         tag = "owned" if owned else "borrowed"
         for kind in ("Null", "Bool", "Number", "String"):
             n += 1
@@ -229,22 +231,23 @@ def check_tryfrom(ctx, lib):
             ok = any(m(t, pat) for t in inner)
             ctx.check(ok, rule, f"{tag}:{kind}", f"Value::{kind} -> Variable::{kind} with its own payload", b.span)
         n += 1
+        # the Array row, as an iterator chain or as a loop: every element, in order, converted by to_jmespath
+        from ..collected import ELEM, describe_vector
         arr = [t for t in inner if t[0] == "agg" and t[1] == VAR + "::Array"]
-        ok = len(arr) == 1
-        if ok:
-            src = set(arr[0][2][0])
-            it = Or_(("iter", ("field", P1, "Array.0")), Call(r"Vec::<T, A>::drain$", Each(("field", P1, "Array.0")), ANY, regex=True))
-            ok = ms(src, Call("std::iter::Iterator::collect", Each(Call("std::iter::Iterator::map", Each(it), Each(lambda x: x[0] == "closure")))))
-            for c in lib.closures_of(b.deff):
-                r = Origins(c, lib).of_local(0)
-                ok = ok and ms(r, Call("ToJmespath::to_jmespath", Each(P2)))
+        ok = len(arr) >= 1
+        src_ok = Or_(("field", P1, "Array.0"), ("iter", ("field", P1, "Array.0")), Call(r"Vec::<T, A>::drain$", Each(("field", P1, "Array.0")), ANY, regex=True))
+        for a_ in arr:
+            d = describe_vector(lib, b, o, set(a_[2][0]))
+            ok = ok and d is not None and len(d) == 1 and bool(d[0].source) and all(m(x, src_ok) for x in d[0].source) and d[0].every_item and \
+                bool(d[0].value) and all(m(v, Call("ToJmespath::to_jmespath", Each(ELEM))) for v in d[0].value)
         ctx.check(ok, rule, f"{tag}:Array", "Value::Array -> Variable::Array of each element converted recursively, in order", b.span)
         n += 1
         obj = [t for t in inner if t[0] == "call" and t[1] == "variable::convert_map"]
         ok = len(obj) == 1 and ms(set(obj[0][2][0]), Or_(("iter", ("field", P1, "Object.0")), Call(r"^serde_json::Map::<.*>::iter$", Each(("field", P1, "Object.0")), regex=True)))
         ctx.check(ok, rule, f"{tag}:Object", "Value::Object -> convert_map(its entries)", b.span)
         others = [t for t in inner if not ((t[0] == "agg" and t[1].startswith(VAR + "::")) or (t[0] == "call" and t[1] == "variable::convert_map"))]
-        ctx.check(not others and len(inner) == 6, rule, f"{tag}:nothing-else", f"exactly the six kind rows produce results ({len(inner)} result terms)", b.span)
+        kinds = {t[1].split("::")[-1] for t in inner if t[0] == "agg" and t[1].startswith(VAR + "::")}
+        ctx.check(not others and kinds == {"Null", "Bool", "Number", "String", "Array"} and len(obj) == 1, rule, f"{tag}:nothing-else", f"exactly the six kind rows produce results (kinds {sorted(kinds)}, other terms {len(others)})", b.span)
     cm = ctx.fn("variable::convert_map", rule=rule)
     if cm is not None:
         o = Origins(cm, lib)
